@@ -752,6 +752,10 @@ pub fn run(cfg: &Cfg, out: &mut Out) {
     // a long string: hostile characters beyond position 64 and at the very end
     let long: String = format!("{}\\\"\n²{}\\", "a".repeat(70), "b9".repeat(100));
     emit_fn_ops(out, &long);
+    // number texts: every numerator with up to 10 fractional bits around 0, and the edges of the range
+    for n in (-2050i64..=2050).chain([4095, 4096, 4097, 1 << 20, (1 << 20) + 1, (1 << 30) + 513, (1 << 31) - 1, -(1 << 31) + 1]) {
+        letext_op(out, n);
+    }
     long_inputs(cfg, out);
     sweep(cfg, out);
     let floats: Vec<String> = [
@@ -849,10 +853,29 @@ pub fn run(cfg: &Cfg, out: &mut Out) {
         }
         // key_to_parts
         let kname = hostile_string(&mut r, true);
-        let klabels: Vec<(String, String)> =
-            (0..r.below(4)).map(|_| (hostile_string(&mut r, true), hostile_string(&mut r, false))).collect();
+        // 0-3 own labels as before in half of the cases; else up to 24 (no cap, no window in `key_to_parts`: the merge
+        // and the join are for every length — Lean `keyToParts_ok`), short strings there so that the op stays small
+        let wide_parts = r.chance(1, 2);
+        let nown = if wide_parts { r.weighted(&[1, 1, 1, 1, 2, 2, 3, 3, 3, 3, 2, 2, 2, 1, 1, 1, 1, 1, 1, 1, 1, 1, 1, 1, 1]) } else { r.below(4) };
+        let mut klabels: Vec<(String, String)> = (0..nown)
+            .map(|_| {
+                if wide_parts && r.chance(2, 3) {
+                    (small_hostile(&mut r, true), small_hostile(&mut r, false))
+                } else {
+                    (hostile_string(&mut r, true), hostile_string(&mut r, false))
+                }
+            })
+            .collect();
+        if wide_parts && klabels.len() >= 2 && r.chance(1, 3) {
+            // the same RAW label name again later in the key (`IndexMap::insert`: first position, last value)
+            let j = r.below(klabels.len());
+            let k = klabels[j].0.clone();
+            let at = r.range(j + 1, klabels.len());
+            klabels.insert(at, (k, small_hostile(&mut r, false)));
+            out.count("parts.repeated_own_label");
+        }
         let mut globals: Vec<(String, String)> = vec![];
-        for _ in 0..r.below(3) {
+        for _ in 0..(if wide_parts { r.below(9) } else { r.below(3) }) {
             // sometimes the same name as a key label, so that the override path is taken
             let k = if !klabels.is_empty() && r.chance(1, 2) {
                 klabels[r.below(klabels.len())].0.clone()
@@ -872,6 +895,30 @@ pub fn run(cfg: &Cfg, out: &mut Out) {
         let use_none = globals.is_empty() && r.chance(1, 2);
         let (pn, pl) = if use_none { f::key_to_parts(&key, None) } else { f::key_to_parts(&key, Some(&gl)) };
         out.count(if use_none { "parts.globals=None" } else { "parts.globals=Some" });
+        out.count(&format!(
+            "parts.labels_out={}",
+            match pl.len() { 0 => "0", 1..=3 => "1-3", 4..=5 => "4-5", 6..=9 => "6-9", 10..=16 => "10-16", _ => "17+" }
+        ));
+        // independent of the model: one label string per distinct raw name, globals first (in their order), then the
+        // key's own new names in order; each string is `sanitised name="escaped value"` of the LAST value given
+        {
+            let mut order: Vec<String> = globals.iter().map(|g| g.0.clone()).collect();
+            for (k, _) in &klabels {
+                if !order.contains(k) {
+                    order.push(k.clone());
+                }
+            }
+            let want: Vec<String> = order
+                .iter()
+                .map(|k| {
+                    let v = klabels.iter().rev().find(|x| x.0 == *k).or_else(|| globals.iter().find(|x| x.0 == *k)).unwrap();
+                    format!("{}=\"{}\"", f::sanitize_label_key(k), f::sanitize_label_value(&v.1))
+                })
+                .collect();
+            if want != pl {
+                out.oracle_fail("key_to_parts: not one label per distinct name in insertion order", &format!("{:?} vs {:?}", want, pl));
+            }
+        }
         out.op(
             &format!("c08 parts {} {} {}", hexs(&kname), pairs(&klabels), pairs(&globals)),
             &format!("{} {}", hexs(&pn), list(pl.iter().map(|l| hexs(l)))),
@@ -885,6 +932,119 @@ pub fn run(cfg: &Cfg, out: &mut Out) {
             Ok(_) if pl.is_empty() => {}
             other => out.oracle_fail("key_to_parts: labels do not read back one by one", &format!("{:?} :: {:?}", other, pl)),
         }
+        // `Display for f64` of a bucket bound / `_sum` / gauge value n/1024, as TEXT against the model's `dyText`
+        for _ in 0..2 {
+            let n: i64 = match r.below(4) {
+                0 => r.range(0, 8192) as i64 - 4096,
+                1 => (r.range(0, 1 << 22) as i64 - (1 << 21)) * 1024 / (1 << r.below(11)),
+                2 => r.range(0, 1 << 31) as i64 - (1 << 30),
+                _ => *r.pick(&[0i64, 1, -1, 512, 1023, 1024, 1025, -1024, 5, 10240, 102400, 1048576, (1 << 31) - 1, -(1 << 31) + 1]),
+            };
+            letext_op(out, n);
+        }
+    }
+}
+
+/// a short hostile string (at most 6 characters of the wide alphabet)
+fn small_hostile(r: &mut Rng, nonempty: bool) -> String {
+    let n = r.range(if nonempty { 1 } else { 0 }, 6);
+    (0..n).map(|_| if r.chance(1, 2) { hostile_char(r) } else { *r.pick(&['a', 'k', '_', '9', '"', '\\', '\n', '=', ',', '}']) }).collect()
+}
+
+/// Exact decimal text of `n / 1024`, written from scratch (long division; 1024 = 2^10, so at most 10 fractional
+/// digits and no rounding): what `Display for f64` — the shortest text that reads back to the same f64, never in
+/// exponent form — prints for such a value as long as |n| < 2^31 (every shorter decimal is off by at least 5e-10, more
+/// than half an ulp below 2^21). Mirrors `PromNum.dyText` of the Lean model.
+pub fn dy_text(n: i64) -> String {
+    let a = n.unsigned_abs();
+    let mut s = String::new();
+    if n < 0 {
+        s.push('-');
+    }
+    s.push_str(&(a / 1024).to_string());
+    let mut rem = a % 1024;
+    if rem != 0 {
+        s.push('.');
+        while rem != 0 {
+            rem *= 10;
+            s.push((b'0' + (rem / 1024) as u8) as char);
+            rem %= 1024;
+        }
+    }
+    s
+}
+
+/// `-?[0-9]+(\.[0-9]+)?`
+pub fn is_plain_decimal(s: &str) -> bool {
+    let t = s.strip_prefix('-').unwrap_or(s);
+    let mut it = t.splitn(2, '.');
+    let ip = it.next().unwrap_or("");
+    let digits = |x: &str| !x.is_empty() && x.bytes().all(|b| b.is_ascii_digit());
+    digits(ip) && it.next().map_or(true, digits)
+}
+
+fn letext_op(out: &mut Out, n: i64) {
+    let real = format!("{}", crate::prom::dy(n));
+    out.op(&format!("c08 letext {}", n), &hexs(&real));
+    if real != dy_text(n) || !is_plain_decimal(&real) {
+        out.oracle_fail("Display of n/1024 is not its exact plain decimal text", &format!("n={} {:?} vs {:?}", n, real, dy_text(n)));
+    }
+}
+
+/// Number texts of a whole render AS TEXT (the model comparison re-parses `le` and the f64 values, so `1`, `1.0` and `1e0`
+/// are the same item there):
+///  * every `le` of a histogram family is `+Inf` or the exact plain decimal text of one of the configured bounds;
+///  * every `quantile` of a summary family is one of the configured quantile texts and a plain decimal;
+///  * every f64 sample value that is exactly n/1024 (|n| < 2^31) is written as its exact plain decimal text;
+///  * every u64 sample value (counter, `_bucket`, `_count`) is a run of ASCII digits without a leading zero.
+pub fn number_text_oracle(out: &mut Out, cfg: &crate::prom::SessionCfg, qtexts: &[String], text: &str) {
+    use crate::expo::PLine;
+    let mut bounds: Vec<String> = vec![];
+    for b in cfg.buckets.iter().chain(cfg.overrides.iter().map(|o| &o.2)) {
+        bounds.extend(b.iter().map(|n| dy_text(*n)));
+    }
+    let (mut cur, mut ty) = (String::new(), String::new());
+    for line in text.strip_suffix('\n').unwrap_or(text).split('\n') {
+        match crate::expo::parse_line(line) {
+            Ok(PLine::Type { name, ty: t }) => {
+                cur = name;
+                ty = t;
+            }
+            Ok(PLine::Sample { name, labels, value }) => {
+                for (k, v) in &labels {
+                    if k == "le" && ty == "histogram" {
+                        out.count("numtext.le");
+                        if v != "+Inf" && !(bounds.contains(v) && is_plain_decimal(v)) {
+                            out.oracle_fail("le text is not the plain decimal text of a configured bound", &format!("{:?} bounds {:?}", line, bounds));
+                        }
+                    }
+                    if k == "quantile" && ty == "summary" {
+                        out.count("numtext.quantile");
+                        if !(qtexts.contains(v) && is_plain_decimal(v)) {
+                            out.oracle_fail("quantile text is not a configured quantile as plain decimal", &format!("{:?} quantiles {:?}", line, qtexts));
+                        }
+                    }
+                }
+                let unsigned = ty == "counter"
+                    || (ty == "histogram" && name == format!("{}_bucket", cur))
+                    || ((ty == "histogram" || ty == "summary") && name == format!("{}_count", cur));
+                if unsigned {
+                    let ok = !value.is_empty() && value.bytes().all(|b| b.is_ascii_digit()) && (value == "0" || !value.starts_with('0'));
+                    if !ok || value.parse::<u64>().is_err() {
+                        out.oracle_fail("u64 sample value is not a plain run of digits", line);
+                    }
+                } else if let Ok(x) = value.parse::<f64>() {
+                    let sc = x * 1024.0;
+                    if x.is_finite() && sc.fract() == 0.0 && sc.abs() < 2147483648.0 && !(x == 0.0 && x.is_sign_negative()) {
+                        out.count("numtext.dyadic_value");
+                        if value != dy_text(sc as i64) {
+                            out.oracle_fail("f64 sample value n/1024 is not written as its exact plain decimal text", &format!("{:?} want {}", line, dy_text(sc as i64)));
+                        }
+                    }
+                }
+            }
+            _ => {}
+        }
     }
 }
 
@@ -895,6 +1055,24 @@ pub fn run_sessions(cfg: &Cfg, out: &mut Out) {
         let mut r = root.fork(i as u64);
         out.case(&format!("render seed={} i={}", cfg.seed, i));
         crate::prom::session(&mut r, out, crate::prom::Flavour::Strings);
+    }
+    // stream D: wide shapes — up to 12 own + 4 global labels (`key_to_parts` beyond 5 labels), up to 9 series per
+    // family, up to 12 bounds, up to 4 bucket overrides (several may match one name: `get_distribution_type` and
+    // `get_distribution` must agree — Lean `distType_newDist`), repeated `add_global_label` / repeated matchers
+    let wide = crate::prom::Shape {
+        max_globals: 4,
+        max_over: 4,
+        max_metrics: 4,
+        max_series: 9,
+        max_own_labels: 12,
+        max_bounds: 12,
+        wide: true,
+    };
+    let rootw = Rng::new(cfg.seed ^ 0xC08D);
+    for i in 0..(cfg.cases / 8).min(300) {
+        let mut r = rootw.fork(i as u64);
+        out.case(&format!("wide render seed={} i={}", cfg.seed, i));
+        crate::prom::session_shaped(&mut r, out, crate::prom::Flavour::Strings, &wide);
     }
     run_adjacent(cfg, out);
 }
